@@ -66,6 +66,8 @@ func c05Stores(c *core.Ctx) {
 	for _, impl := range storeImpls {
 		c06Laws(c, k, ck, impl, false)
 	}
+	// the layered stores the interpreter and the engine put in front of them answer like the same set too
+	c.Under(rC05Store, []string{rC06Wrap, rC06Merge}, func() { c06Wrappers(c, k, ck) })
 }
 
 // c05ClauseOrder: the fixpoint loop reaches the same least model whatever the order of the rules (each abstract
